@@ -344,6 +344,14 @@ func ruleSeqhash(c *Ctx, prop string) {
 			continue
 		}
 		mt := mine[0]
+		if mt.coverage != "" && !strings.HasPrefix(mt.coverage, "?") {
+			c.bad("GUARD", key, mt.site.Pos(), "the alphabet test for "+typ+" does not reach every letter: "+mt.coverage+", so a foreign character there is hashed instead of rejected")
+			continue
+		}
+		if strings.HasPrefix(mt.coverage, "?") {
+			c.undecided("GUARD", key, mt.site.Pos(), "the letters are tested by index and the loop's coverage could not be evaluated ("+strings.TrimPrefix(mt.coverage, "?")+")")
+			continue
+		}
 		if mt.narrowed {
 			c.bad("GUARD", key, mt.site.Pos(), "for "+typ+" every letter is converted to a single byte before it is looked up in the alphabet: a non-ASCII letter whose low byte is an allowed letter (U+0141 'Ł' -> 'A', U+012A 'Ī' -> '*') is accepted and hashed instead of rejected")
 			continue
@@ -472,6 +480,44 @@ type memberTest struct {
 	conditional bool
 	// the letter is cut down to one byte before it is looked up
 	narrowed bool
+	// for a test by index: "" if every position 0..n-1 is visited for n = 1..6, "?..." if that could not
+	// be evaluated, else the position that is left out
+	coverage string
+}
+
+// indexCoverage simulates the counted loop around the test at site and reports a position of the
+// string that the loop never hands to the test.
+func indexCoverage(h *ssa.Function, site ssa.Instruction, idx ssa.Value) string {
+	hdr := enclosingLoopHeader(site.Block())
+	if hdr == nil {
+		return "?the test is not inside a loop"
+	}
+	tb := newTB(h)
+	ls, why := newLoopSim(tb, hdr)
+	if ls == nil {
+		return "?" + why
+	}
+	it := tb.T(idx)
+	for n := int64(1); n <= 6; n++ {
+		seen := map[int64]bool{}
+		ok, why := ls.run(n, nil, n+5, func(env map[string]int64) (bool, string) {
+			v, known := ls.evalInt(it, env, 0)
+			if !known {
+				return false, "?index not evaluable"
+			}
+			seen[v] = true
+			return true, ""
+		})
+		if !ok {
+			return "?" + strings.TrimPrefix(why, "?")
+		}
+		for p := int64(0); p < n; p++ {
+			if !seen[p] {
+				return fmt.Sprintf("for a sequence of %d letters the letter at position %d is never tested", n, p)
+			}
+		}
+	}
+	return ""
 }
 
 // membershipTests finds, in Hash and the same-package helpers it calls, loops that test every rune
@@ -574,6 +620,18 @@ func membershipTests(h *ssa.Function) []memberTest {
 			return
 		}
 		x := cl.Call.Args[1]
+		// the letter cut out by index: s[i:i+1] (or string(s[i])) in a counted loop over s. Which positions
+		// the loop visits is decided by simulating its index arithmetic for lengths 1..6.
+		if sl, isSlice := x.(*ssa.Slice); isSlice && isStringType(sl.X.Type()) && sl.Low != nil && sl.High != nil {
+			if hi, isAdd := sl.High.(*ssa.BinOp); isAdd && hi.Op == token.ADD && hi.X == sl.Low {
+				if k, isK := hi.Y.(*ssa.Const); isK && k.Value != nil && k.Value.ExactString() == "1" {
+					mt := memberTest{site: cl, alphaV: cl.Call.Args[0], overV: sl.X}
+					mt.coverage = indexCoverage(h, cl, sl.Low)
+					out = append(out, mt)
+					return
+				}
+			}
+		}
 		narrowed := false
 		if cv, ok := x.(*ssa.Convert); ok {
 			// byte(r) of a rune keeps only its low eight bits: U+0141 becomes 'A'
